@@ -891,13 +891,16 @@ open Dos.Bn256
 	}
 	sb.WriteString("/-- the translated Go functions: (Go name, source position, Lean name) -/\ndef translated : List (String × String × String) := [\n")
 	var items []string
-	for _, s := range t.order {
-		if aliasPattern(s.params, s.classOf) == "" {
-			name := s.key
-			if n := nilPattern(s.params, s.classOf); n != "" {
-				name += "[" + n + "=nil]"
+	// in SOURCE order (file by file, declaration by declaration), so that the list does not depend on who calls whom
+	for _, key := range roots {
+		for _, s := range t.order {
+			if s.key == key && aliasPattern(s.params, s.classOf) == "" {
+				name := s.key
+				if n := nilPattern(s.params, s.classOf); n != "" {
+					name += "[" + n + "=nil]"
+				}
+				items = append(items, fmt.Sprintf("  (%s, %s, %s)", ex.LeanStr(name), ex.LeanStr(s.pos), ex.LeanStr(s.lean)))
 			}
-			items = append(items, fmt.Sprintf("  (%s, %s, %s)", ex.LeanStr(name), ex.LeanStr(s.pos), ex.LeanStr(s.lean)))
 		}
 	}
 	sb.WriteString(strings.Join(items, ",\n") + "]\n\n")
